@@ -149,6 +149,61 @@ def before(a, b):
     return (a.lineno, a.col_offset) < (b.lineno, b.col_offset)
 
 
+class _ScalarSubst(ast.NodeTransformer):
+    """Substitute names used as *values* (not as the base of a subscript / attribute, nor as a callee)."""
+
+    def __init__(self, lookup):
+        self.lookup = lookup
+
+    def visit_Subscript(self, node):
+        if not isinstance(node.value, ast.Name):
+            node.value = self.visit(node.value)
+        node.slice = self.visit(node.slice)
+        return node
+
+    def visit_Attribute(self, node):
+        if not isinstance(node.value, ast.Name):
+            node.value = self.visit(node.value)
+        return node
+
+    def visit_Call(self, node):
+        if not isinstance(node.func, ast.Name):
+            node.func = self.visit(node.func)
+        node.args = [self.visit(a) for a in node.args]
+        for kw in node.keywords:
+            kw.value = self.visit(kw.value)
+        return node
+
+    def visit_Lambda(self, node):
+        return node
+
+    def visit_Name(self, node):
+        if isinstance(node.ctx, ast.Load):
+            r = self.lookup(node.id)
+            if r is not None:
+                return r
+        return node
+
+
+def resolve_values(b, expr, at, keep=(), depth=6):
+    """Like Bindings.resolve(at=...) but containers, callees and receivers keep their names: only names in value
+    position are replaced by the definition reaching `at`."""
+    import copy
+    if depth <= 0:
+        return expr
+
+    def lookup(name):
+        if name in keep:
+            return None
+        d = b.reaching(name, at)
+        if d is None or name in au.names(d):
+            return None
+        if isinstance(d, (ast.Lambda, ast.Dict, ast.List, ast.ListComp, ast.DictComp, ast.Set, ast.SetComp)):
+            return None
+        return resolve_values(b, copy.deepcopy(d), b._last_def_stmt, keep, depth - 1)
+    return _ScalarSubst(lookup).visit(copy.deepcopy(expr))
+
+
 # --------------------------------------------------------------------- callable arity (R-RESOLVE)
 def positional_range(args: ast.arguments):
     """(min, max) number of positional arguments accepted; max None for *args."""
@@ -211,7 +266,7 @@ def arity_agreement(ctx, rule, modname, fn, min_names=1):
                 accepted = f"{mn}" if mx == mn else f"{mn}..{'*' if mx is None else mx}"
                 ctx.fail(rule, ctx.site(modname, fn, st),
                          f"callable bound to `{name}` under `{where}` takes {accepted} positional argument(s), "
-                         f"but `{name}` is called as `{au.src(bad[0])}`",
+                         f"but `{name}` is called with {bad[1]}",
                          f"TypeError as soon as the branch `{where}` is selected and `{au.src(bad[0])}` is evaluated; "
                          f"the sibling bindings of `{name}` accept that call")
     return n, names
